@@ -278,7 +278,10 @@ def boundary_compressor_cases(ctx, rng, n, first_id=0):
             p["stableIn"] = 1
         elif r < 0.3:
             p["stableOut"] = 1
-        style = rng.choice(["direct", "endshort", "wrap", "flushwrap"])
+        style = rng.choice(["direct", "endshort", "wrap", "flushwrap", "stablein"])
+        if style == "stablein":     # stable input: a flush starts the frame, then continue calls leave 1 .. blockSize-1 bytes unconsumed
+            p.pop("stableOut", None)
+            p["stableIn"] = 1
         ops = []
         if style == "direct":       # capacity around compressBound(blockSize): direct-to-dst or through outBuff
             for _ in range(rng.randint(2, 8)):
@@ -288,6 +291,11 @@ def boundary_compressor_cases(ctx, rng, n, first_id=0):
                 ops.append("%s:r:%d" % (rng.choice(["0", "1", "b", "b-1", "100"]), rng.choice([0, 0, 1])))
             ops.append("a:%s:2" % rng.choice(["C", "C-1", "C+1", "C", "C-1"]))
             ops.append("a:%s:2" % rng.choice(["C", "r", "3"]))
+        elif style == "stablein":
+            ops.append("%s:r:1" % rng.choice(["1", "100", "b", "b+1"]))
+            for _ in range(rng.randint(2, 8)):
+                ops.append("%s:%s:%d" % (rng.choice(["b-1", "b-1", "h-1", "1001", "1023", "b+5", "2b-1" if False else "b+1", "1"]), rng.choice(["r", "r", "c", "5"]),
+                                         rng.choice([0, 0, 0, 1])))
         elif style == "wrap":       # fill the input buffer to its end: inBuffTarget > inBuffSize restarts at 0
             for _ in range(rng.randint(3, 12)):
                 ops.append("%s:%s:0" % (rng.choice(["b", "b", "h", "h", "b-1", "b+1", "1"]), rng.choice(["r", "r", "c", "7"])))
